@@ -402,9 +402,10 @@ const c33ResTag = "C33RES "
 // while a tree is built, which is fatal in Go.  The child prints one result line per tree; when
 // it dies, the tree after the last reported one is recorded as crashed and a new child continues.
 func c33ReplayChild(payload string) {
-	start, _ := strconv.Atoi(payload)
+	var start, end int
+	fmt.Sscanf(payload, "%d,%d", &start, &end)
 	for i, raw := range vIn() {
-		if i < start {
+		if i < start || i >= end {
 			continue
 		}
 		b, _ := json.Marshal(c33ReplayOne(i, raw))
@@ -425,7 +426,12 @@ func c33Replay(t *testing.T) {
 			next++
 			continue
 		}
-		out, outcome := vChild("TestVerifC33", strconv.Itoa(next), 40*time.Minute)
+		// chunks of 150 trees keep a child far below the test binary's default 10 min timeout
+		end := next + 150
+		if end > total {
+			end = total
+		}
+		out, outcome := vChild("TestVerifC33", strconv.Itoa(next)+","+strconv.Itoa(end), 9*time.Minute)
 		tail := ""
 		for _, line := range strings.Split(out, "\n") {
 			if strings.HasPrefix(line, c33ResTag) {
@@ -438,7 +444,7 @@ func c33Replay(t *testing.T) {
 				tail += strings.TrimSpace(line) + " | "
 			}
 		}
-		if next < total {
+		if next < end {
 			crashes++
 			vEmit(M{"i": next, "ok": false, "step": 0,
 				"what": "the real code did not survive this tree (child " + outcome + "): " + tail})
